@@ -94,6 +94,18 @@ PROPS = {
                      "else 5s (rel. tol. 1e-9), no timeout answer before the virtual deadline and one in the step that reaches it, late replies have no "
                      "effect, sanitizers silent. Non-trivial = at least one armed duration was compared and the scenario has a timeout or a race step; "
                      "distinct = scenario hash."),
+    "C12": scen("c12", ["default"],
+                quick=dict(cases=1500, size=60), thorough=dict(cases=40000, size=100, budget_s=3000),
+                rule="rapidcheck-generated valid upgrades (header order and case, extra headers incl. an extension offer, random 16-byte keys, protocol lists "
+                     "containing jet, Connection/Upgrade value variants) followed by frame sequences on 1-3 WebSocket connections next to a raw peer: text "
+                     "messages of boundary sizes (24..512 bytes, all three length encodings as needed) carrying JSON-RPC, pings/pongs of 0..125 bytes, unmasked "
+                     "frames, RSV bits, reserved opcodes, fragmented and oversized control frames, close frames over 23 status codes x 7 reasons (valid/invalid "
+                     "UTF-8), 0- and 1-byte close payloads, data fragments, binary, continuation without start, invalid JSON/UTF-8 text, declared lengths above "
+                     "the buffer, ordinary add/fetch/change/get traffic, random read chunking and split deliveries, random event order. Oracles: 101 with the "
+                     "accept digest computed by the harness' own SHA-1/base64, protocol and upgrade headers; server frames unmasked/FIN/RSV0/minimal length/"
+                     "opcode text|pong|close; pong payload == ping payload in order; every violation answered by a close frame of a status RFC 6455 assigns to it "
+                     "and the connection ends; JSON-RPC over WebSocket and over raw agree with one shared reference model. Non-trivial = handshake succeeded and "
+                     "at least one frame other than a plain text frame was judged; distinct = scenario hash."),
     "C13": scen("c13", ["default"],
                 quick=dict(cases=1500, size=60), thorough=dict(cases=40000, size=100, budget_s=3000),
                 rule="rapidcheck-generated HTTP exchanges on the WebSocket port: a valid upgrade with exactly one defect - wrong path, method or version, malformed "
